@@ -220,6 +220,7 @@ def run(ctx):
     ncases = 10 if quick else 120
     done = 0
     tries = 0
+    same_instance_cases = set()
     commit_witness = None
     book_witness = None
     sub_witness = None
@@ -286,7 +287,10 @@ def run(ctx):
                 diff = [key for key in strip_versions(final) if strip_versions(final)[key] != strip_versions(ff['snapshot'])[key]]
                 ctx.fail(None, 'the retry ends in a different state than the uninterrupted run: %s' % diff, rep)
             # the first cases also retry on the Evolver whose run failed (clean failures only)
-            if done <= 3 and not rep.get('changed') and not is_bookkeeping(rep['failed_sql']) and ctx.time_left() > 40:
+            if not rep['new_model'] and (seed in same_instance_cases or len(same_instance_cases) < 2):
+                same_instance_cases.add(seed)
+            if (done <= 2 or seed in same_instance_cases) and not rep.get('changed') and \
+                    not is_bookkeeping(rep['failed_sql']) and ctx.time_left() > 40:
                 what = same_instance_retry(case, k, ff['snapshot'])
                 ctx.count('same_instance_retry')
                 if what:
